@@ -5,7 +5,8 @@
    dependency) is no longer an assumption: see deps_cover_by_construction. *)
 From V Require Import Common.Base C10.BitSet C10.Renamer C10.Split
   C10.BitSetProofs C10.RenamerProofs C10.ListLemmas C10.SplitProofs C10.OrderProofs C10.CrossProofs
-  C10.Eval C10.EvalProofs C10.TotalProofs.
+  C10.Eval C10.EvalProofs C10.TotalProofs C10.DfsProofs.
+From Coq Require Import Permutation.
 From Coq Require Import Relations.
 
 (* scanImportsAndExports steps 5/6, as completed by the model (Split.part_deps, export_deps):
@@ -58,6 +59,21 @@ Theorem chunks_partition : forall g r, split g = Some r ->
   (forall c f, In c (a_chunks a) -> In f (c_files c) -> In f (a_order a) /\ is_live a f = true).
 Proof. exact chunks_partition_all. Qed.
 Print Assumptions chunks_partition.
+
+(* findReachableFiles lists the runtime and the user entry points and is closed under import records *)
+Theorem reachable_files_closed_under_imports : forall g, wf_graphb g = true ->
+  In O (reachable_files g) /\ (forall e, In e (g_user g) -> In e (reachable_files g)) /\
+  (forall f r, In f (reachable_files g) -> In r (f_recs (getf g f)) -> In (fst r) (reachable_files g)).
+Proof. exact reachable_files_closed. Qed.
+Print Assumptions reachable_files_closed_under_imports.
+
+(* findImportedPartsInJSOrder: the emitted order of a chunk is a permutation of the chunk's files
+   (every file of the chunk is emitted, exactly once, and nothing else) *)
+Theorem chunk_order_permutation : forall g r i, split g = Some r -> wf_graphb g = true ->
+  (i < length (a_chunks (r_analysis r)))%nat ->
+  Permutation (nth i (r_orders r) []) (c_files (nth i (a_chunks (r_analysis r)) dchunk)).
+Proof. exact chunk_order_permutation_all. Qed.
+Print Assumptions chunk_order_permutation.
 
 (* and no chunk lists a file twice *)
 Theorem chunk_files_nodup : forall g r c, split g = Some r -> In c (a_chunks (r_analysis r)) -> NoDup (c_files c).
